@@ -10,7 +10,8 @@ open Req.Proto
 
 /-! ### `c09lockset <fieldId> <site>/<site>/…`
 site = `<fn hex>:<write 0|1>:<cfg 0|1>:<lock ids comma-joined or ->`.
-Answer: `guarded <common lock ids>` or `unguarded <majority lock> <offending fn hex list>`. -/
+Answer: `guarded <common lock ids>`, `pairwise` (no common lock, but every two sites of which one
+can write share a lock) or `unguarded <majority lock> <offending fn hex list>`. -/
 
 def parseSite (s : String) : Option Req.Pool.Lockset.Access :=
   match s.splitOn ":" with
@@ -30,6 +31,7 @@ def laneLockset : List String → String
     | some as =>
       match Req.Pool.Lockset.verdict as with
       | .guarded ls => "guarded " ++ encodeNatList ls
+      | .pairwise => "pairwise"
       | .unguarded l fns => "unguarded " ++ toString l ++ " " ++
           (if fns.isEmpty then "-" else ",".intercalate (fns.map encFn))
     | none => "bad-op"
